@@ -21,7 +21,8 @@ def units(tier):
 def strategy(tier, unit):
     e = st.one_of(S.fl(-0.1, 0.1), S.fl(-0.1, 0.1), st.sampled_from([0.0, 0.1, -0.1]), S.fl(-1e-4, 1e-4))
     return st.fixed_dictionaries({"cell": S.cells(), "eps": st.lists(e, min_size=6, max_size=6), "rot": S.rot_specs(1),
-                                  "mod": st.sampled_from(["tools", "laue"]), "as_array": st.booleans()})
+                                  "mod": st.sampled_from(["tools", "laue"]), "as_array": st.booleans(),
+                                  "prev": st.one_of(st.none(), S.cells(), S.logfl(1e-9, 1e-3)), "cell_as_array": st.booleans()})
 
 
 def _sym6(E):
@@ -38,6 +39,18 @@ def check(case, ctx):
     U = S.build_rotation(case["rot"]) + 0.0
     ctx.nontrivial(O.maxabs(eps) > 0.01 and S.is_oblique(cell) and not S.rot_is_axis(U))
     ctx.event("zero-strain" if not np.any(eps) else "strained")
+    # history: the caller keeps ONE cell object; it held another (or a minutely different) cell during the previous
+    # strain evaluation and was then updated in place
+    if case.get("prev") is not None:
+        prev = case["prev"] if isinstance(case["prev"], list) else S.perturbed(cell, case["prev"])
+        holder = np.array(prev, float) if case.get("cell_as_array") else [float(x) for x in prev]
+        Bp = ctx.keep("%s.epsilon_to_b(previous cell)" % m, mod.epsilon_to_b(eps.tolist(), holder))
+        ctx.keep("%s.b_to_epsilon(previous cell)" % m, mod.b_to_epsilon(O.ro(Bp), holder))
+        ctx.keep("%s.epsilon_to_b_old(previous cell)" % m, mod.epsilon_to_b_old(eps.tolist(), holder))
+        holder[:] = cell
+        cell_values = list(cell)
+        cell = holder
+        ctx.event("cell-object-reused-in-place")
     B0 = np.asarray(mod.form_b_mat(cell), float)
     sc = O.maxabs(B0)
     # the strain is handed over the way a caller holds it: a list or (half of the cases) one float ndarray that is
@@ -61,6 +74,9 @@ def check(case, ctx):
     Edef = _sym6(0.5 * (T + T.T) - np.eye(3))
     ctx.near("b_to_epsilon=sym(B0.Binv)-I", O.maxabs(e1 - Edef), TOL, "b_to_epsilon/definition", "%s.b_to_epsilon differs from sym(B0 inv(B)) - I" % m)
     ctx.near("eps(0)->B0", O.maxabs(np.asarray(mod.epsilon_to_b([0.0] * 6, cell), float) - B0) / sc, TOL, "epsilon_to_b/zero-strain", "%s.epsilon_to_b(0) != form_b_mat" % m)
+    Gs_ = O.metric([float(x) for x in cell])[1]
+    Bz = np.asarray(mod.epsilon_to_b([0.0] * 6, cell), float)
+    ctx.near("eps(0)->B'B=f^2G*", O.maxabs(Bz.T @ Bz / (f * f) - Gs_) / O.maxabs(Gs_), 1e-9, "epsilon_to_b/zero-strain-metric", "%s.epsilon_to_b(0)'s metric is not the reciprocal metric of the cell" % m)
     # B -> eps -> B for a B obtained from a strained cell (= B of the strained cell, upper triangular)
     scell = mod.b_to_cell(B)
     Bs = np.asarray(mod.form_b_mat(scell), float)
